@@ -664,4 +664,20 @@ instance primSimWd : PrimSim (WGood (V := V) n h0 ids0) view where
   update := w_update
   remove := w_remove
 
+/-- the one-track table against the specification table is an instance of the generic development too (`Sim n` is
+`GSim (Inv n) abs`): `gsim_step` then gives `sim_step` again -/
+instance primSimSt : PrimSim (Inv (V := V) n) abs where
+  size := sim_weaken sim_size (fun _ _ => trivial)
+  has := sim_has
+  names := sim_names
+  get := fun o name => sim_weaken (sim_get o name) (fun _ _ => trivial)
+  getObs := sim_getObs
+  setObs := sim_setObs
+  create := sim_create
+  update := sim_update
+  remove := sim_remove
+
+example (o : Ops V) (op : Op V) : Sim n (fun _ => True) (step (σ := St V) o op) (step (σ := ATab V) o op) :=
+  gsim_step (I := Inv n) (ab := abs) o op
+
 end TV.Features
